@@ -227,5 +227,145 @@ theorem wsdLoop_secInv (g : Seg) (segStart : BitVec 64) (l : List (BitVec 16)) (
         obtain ⟨s2, m2⟩ := ih st1 hrest hinv1 (by omega) s1 st' h
         exact ⟨s2, by omega⟩
 
+theorem wsdLoop_secInv' (g : Seg) (segStart : BitVec 64) (l : List (BitVec 16)) (st : WsdSt)
+    (B : Nat) (G : List Seg) (hg : g ∈ G) (hl : ∀ idx ∈ l, idx ∈ g.secs)
+    (hB : B ≤ 4611686018427387904) (hinv : SmallInv B G st.lay)
+    (hv : g.vaddr.toNat < 4611686018427387904)
+    (hss : l ≠ [] → segStart.toNat ≤ st.lay.pos.toNat) (hsi : SecInv st.lay) :
+    ∀ st', wsdLoop .c64 g segStart l st = .ok (some st') →
+      SecInv st'.lay ∧ st.lay.pos.toNat ≤ st'.lay.pos.toNat := by
+  cases l with
+  | nil =>
+    intro st' h
+    simp only [wsdLoop, pure, Except.pure, Except.ok.injEq, Option.some.injEq] at h
+    subst h; exact ⟨hsi, Nat.le_refl _⟩
+  | cons idx rest =>
+    exact wsdLoop_secInv g segStart (idx :: rest) st B G hg hl hB hinv hv (hss (List.cons_ne_nil _ _)) hsi
+
+/-- `seg_start_pos` of a segment with members is not beyond the cursor the member loop starts from -/
+theorem segInit_start (c : Cls) (hdrPhoff : BitVec 64) (phentsize phnum : BitVec 16) (lay : Layout) (g : Seg)
+    (fg : Bool) (r : Layout × BitVec 64 × BitVec 64 × BitVec 64)
+    (h : segInit c hdrPhoff phentsize phnum lay g fg = .ok r)
+    (hfg : segFirstGen lay g = .ok fg) (hne : g.secs ≠ []) (hlen : g.secs.length < 65536)
+    (hsi : SecInv lay) (hmono : lay.pos.toNat ≤ r.1.pos.toNat) :
+    r.2.1.toNat ≤ r.1.pos.toNat := by
+  have hpos : 0 < g.secs.length := by
+    cases hs : g.secs with
+    | nil => exact absurd hs hne
+    | cons a t => simp
+  unfold segInit at h
+  simp only at h
+  split at h
+  · rename_i hp
+    exfalso
+    simp only [lseg_is_phdr, Bool.and_eq_true, beq_iff_eq] at hp
+    have := congrArg BitVec.toNat hp.2
+    simp only [BitVec.toNat_setWidth, BitVec.toNat_ofNat, Nat.reducePow] at this
+    omega
+  · split at h
+    · simp only [pure, Except.pure, Except.ok.injEq] at h; subst h; simp
+    · split at h
+      · simp only [pure, Except.pure, Except.ok.injEq] at h; subst h; exact Nat.le_refl _
+      · rename_i hfresh
+        have hfgt : fg = true := by
+          cases fg with
+          | true => rfl
+          | false => simp [hpos] at hfresh
+        subst hfgt
+        split at h
+        · split at h
+          · rename_i _ f hf _ s hs
+            simp only [pure, Except.pure, Except.ok.injEq] at h; subst h
+            simp only
+            apply hsi.genLe f.toNat s hs
+            left
+            unfold segFirstGen at hfg
+            rw [hf] at hfg
+            simp only at hfg
+            cases hgf : lay.gen[f.toNat]? with
+            | none => rw [hgf] at hfg; simp [throw, throwThe, MonadExceptOf.throw] at hfg
+            | some b =>
+              rw [hgf] at hfg
+              simp only [pure, Except.pure, Except.ok.injEq] at hfg
+              rw [hfg]
+          · simp [throw, throwThe, MonadExceptOf.throw] at h
+        · simp only [pure, Except.pure, Except.ok.injEq] at h; subst h; exact Nat.le_refl _
+
+/-- one segment keeps `SecInv` -/
+theorem layoutSegment_secInv (hdrPhoff : BitVec 64) (phentsize phnum : BitVec 16) (lay : Layout) (g : Seg)
+    (B : Nat) (G : List Seg) (hg : g ∈ G) (hal : g.align.toNat < 1099511627776)
+    (hB : B + 1099511627776 ≤ 4611686018427387904) (hinv : SmallInv B G lay)
+    (hv : g.vaddr.toNat < 4611686018427387904) (hlen : g.secs.length < 65536) (hsi : SecInv lay) :
+    ∀ lay' g', layoutSegment .c64 hdrPhoff phentsize phnum lay g = .ok (some (lay', g')) → SecInv lay' := by
+  intro lay' g' h
+  rw [layoutSegment_eq] at h
+  cases hfg : segFirstGen lay g with
+  | error e => rw [hfg] at h; simp [bind, Except.bind] at h
+  | ok fg =>
+    rw [hfg] at h
+    simp only [bind, Except.bind] at h
+    cases hin : segInit .c64 hdrPhoff phentsize phnum lay g fg with
+    | error e => rw [hin] at h; simp at h
+    | ok r =>
+      rw [hin] at h
+      simp only at h
+      have hpot := hinv.pot
+      obtain ⟨hp1, hp2⟩ := segInit_pos .c64 hdrPhoff phentsize phnum lay g fg r hin hal (by omega)
+      have hl := segInit_lay .c64 hdrPhoff phentsize phnum lay g fg r hin
+      have hinv1 : SmallInv (B + 1099511627776) G r.1 := by
+        rw [hl]
+        exact ⟨by simp only; omega, hinv.len, hinv.sz, hinv.addr⟩
+      have hsi1 : SecInv r.1 := by rw [hl]; exact hsi.advance _ hp1
+      cases hw : wsdLoop .c64 g r.2.1 g.secs { lay := r.1, mem := r.2.2.1, file := r.2.2.2 } with
+      | error e => rw [hw] at h; simp at h
+      | ok w =>
+        rw [hw] at h
+        cases w with
+        | none => simp [pure, Except.pure] at h
+        | some st =>
+          simp only [pure, Except.pure, Except.ok.injEq, Option.some.injEq, Prod.mk.injEq] at h
+          obtain ⟨rfl, -⟩ := h
+          exact (wsdLoop_secInv' g r.2.1 g.secs { lay := r.1, mem := r.2.2.1, file := r.2.2.2 }
+            (B + 1099511627776) G hg (fun _ h => h) hB hinv1 hv
+            (fun hne => segInit_start .c64 hdrPhoff phentsize phnum lay g fg r hin hfg hne hlen hsi hp1)
+            hsi1 st hw).1
+
+/-- all segments keep `SecInv` -/
+theorem segsFold_secInv (hdrPhoff : BitVec 64) (phentsize phnum : BitVec 16) (l : List Seg)
+    (lay : Layout) (B : Nat) (G : List Seg)
+    (hl : ∀ g ∈ l, g ∈ G ∧ g.align.toNat < 1099511627776 ∧ g.vaddr.toNat < 4611686018427387904 ∧
+      g.secs.length < 65536)
+    (hB : B + 1099511627776 * l.length ≤ 4611686018427387904) (hinv : SmallInv B G lay) (hsi : SecInv lay) :
+    ∀ done lay' done', l.foldlM (segsStep .c64 hdrPhoff phentsize phnum) (some (lay, done)) = .ok (some (lay', done')) →
+      SecInv lay' := by
+  induction l generalizing lay B with
+  | nil =>
+    intro done lay' done' h
+    simp only [List.foldlM, pure, Except.pure, Except.ok.injEq, Option.some.injEq, Prod.mk.injEq] at h
+    obtain ⟨rfl, -⟩ := h
+    exact hsi
+  | cons g rest ih =>
+    simp only [List.length_cons, Nat.mul_add_one, ← Nat.add_assoc] at hB
+    obtain ⟨hgG, hga, hgv, hgl⟩ := hl g (List.mem_cons_self ..)
+    have hrest : ∀ g' ∈ rest, g' ∈ G ∧ g'.align.toNat < 1099511627776 ∧
+        g'.vaddr.toNat < 4611686018427387904 ∧ g'.secs.length < 65536 :=
+      fun g' h' => hl g' (List.mem_cons_of_mem _ h')
+    intro done lay' done' h
+    simp only [List.foldlM, segsStep, bind, Except.bind] at h
+    cases hs : layoutSegment .c64 hdrPhoff phentsize phnum lay g with
+    | error e => rw [hs] at h; simp at h
+    | ok r =>
+      rw [hs] at h
+      cases r with
+      | none =>
+        simp only [pure, Except.pure] at h
+        rw [segsFold_none] at h; simp at h
+      | some r =>
+        obtain ⟨lay1, g1⟩ := r
+        simp only [pure, Except.pure] at h
+        have hinv1 := (segNW_of_bound .c64 hdrPhoff phentsize phnum lay g B G rfl hgG hga (by omega) hinv).2 lay1 g1 hs
+        have hsi1 := layoutSegment_secInv hdrPhoff phentsize phnum lay g B G hgG hga (by omega) hinv hgv hgl hsi lay1 g1 hs
+        exact ih lay1 (B + 1099511627776) hrest (by omega) hinv1 hsi1 _ lay' done' h
+
 end Small
 end ElfioVerif
